@@ -14,7 +14,7 @@ CHECKS = {
             "Every request/axis/slice/input of ~2400 (quick) generated datasets is compared both ways with the model's valid-case set; "
             "identical masks/observations for all inputs; changing one input's values leaves the others bit-identical; -agg count columns through text/NetCDF files.",
             DS_NOTE, "DESIGN.md section 5, C01"),
-    "C02": ("Hypothesis-generated datasets with per-file orderings; cell-by-cell differential against the dictionary model + metamorphic permutation of entries/rows/columns/files",
+    "C02": ("Hypothesis-generated datasets with per-file orderings; cell-by-cell differential against the dictionary model + metamorphic permutation of entries/rows/columns/files + alone-vs-together relation (an input read alone gives the values it contributes to a joint run, with and without -T)",
             "3D results are checked cell by cell against the value each file stores at those coordinates; re-permuting entries (in memory, text rows and columns, NetCDF) "
             "and the order of files must leave results unchanged / permute csv columns only.",
             DS_NOTE, "DESIGN.md section 5, C02"),
@@ -38,10 +38,10 @@ CHECKS = {
             "Axis values and the cases of every slice of all 16 -x dimensions are compared with the model's buckets; slice counts/weighted means add up to the pooled values; csv rows and labels through the real readers; "
             "all 73414 calendar days are enumerated for the conversion functions.",
             DS_NOTE + " Day-of-year numbering after Feb 28 in non-leap years is not judged.", "DESIGN.md section 5, C11"),
-    "C12": ("Hypothesis-generated (dataset, metric, axis, output options) cases run through the driver; differential of the printed table against scores computed through the API, the calendar model for row labels, and -f/-acc metamorphic relations",
+    "C12": ("Hypothesis-generated (dataset, metric, axis, output options) cases run through the driver; differential of the printed table against scores computed through the API and, row by row, against the reference model on the cases of the slice the row names; the calendar model for row labels; -f/-acc metamorphic relations",
             "Header, row count/order/labels and every printed cell (6 significant digits csv, 4 text) are compared with the computed scores for all 70 standard metrics and obsfcst; -f content equals stdout content; -acc equals running sums.",
             "The computed score is Standard._get_x_y on a Data object built from the same files (metric correctness is C05/C06/C08).", "DESIGN.md section 5, C12"),
-    "C13": ("grammar-based command-line generation (Hypothesis) against an independent model of the documented semantics; option-order and --config metamorphic relations; exhaustive grids for the vector syntax and date ranges; vector fuzzing; enumerated and generated rejection classes; -c/-C together",
+    "C13": ("grammar-based command-line generation (Hypothesis) against an independent model of the documented semantics; option-order and --config metamorphic relations; exhaustive grids for the vector syntax and date ranges; vector fuzzing; enumerated and generated rejection classes; -c/-C together; -obs/-fcst column mappings against files with the columns moved physically",
             "Command lines with random option subsets/orders/values/spellings over generated files must print the table the model predicts; permuting options or moving them into --config files changes nothing; parse_numbers is decided on a full grid; 34 malformed invocations must end in an Error: exit.",
             "Defaults the help text leaves open are never relied on (-x explicit, -b with -r, one event for non-threshold axes); date ranges with positive steps.", "DESIGN.md section 5, C13"),
     "C19": ("enumerated cross product (stratified in quick, complete in thorough) of metric/diagram x -x x output type x variants (lists, single threshold, single file) on hand-built dataset shapes + Hypothesis-generated datasets + every figure kind drawn with suitable arguments into a file; outcome oracle with exception bucketing",
@@ -69,10 +69,10 @@ CHECKS = {
             "All 1819 (quick) / 14949 (thorough) tables x 25 metrics through compute_from_abcd and compute_from_obs_fcst; counts a,b,c,d,n from vectors under all eight bin types with thresholds at/between/outside the data; "
             "NaN exactly where undefined, never infinity; swap/complement/perfect relations; csv through files.",
             "Trusts the textbook formulas in vlib/model.py and the documented event semantics (C07).", "DESIGN.md section 5, C06"),
-    "C15": ("Hypothesis-generated arrays (1-4 dims, every axis) against pure-Python statistics; generated datasets with irregular grids against a windowed-aggregate model of -T, via API and csv",
+    "C15": ("Hypothesis-generated arrays (1-4 dims, every axis) against pure-Python statistics; generated datasets with irregular grids against a windowed-aggregate model of -T, via API and csv; dimensions stored in any order and selections on the aggregated axis",
             "Each aggregator (14 named + quantile levels) along every axis equals the list statistic; under -T every obs/fcst/ensemble-member value entering a score equals the aggregate over the trailing window (x-h, x] of the same series.",
             "Lead times/times ascending within a file under -T; a missing value in a window makes every statistic but count (and change, which uses the end points) missing; float32 tolerance 2e-6.", "DESIGN.md section 5, C15"),
-    "C08": ("Hypothesis-generated probability/outcome vectors and generated probabilistic/ensemble datasets; differential against exact definitions on the model's valid cases; decomposition identity, binning-independent relations between the Brier terms, complement relation, repeated computation on one object and validity predicates for ensemble quantiles",
+    "C08": ("Hypothesis-generated probability/outcome vectors and generated probabilistic/ensemble datasets; differential against exact definitions on the model's valid cases; decomposition identity, binning-independent relations between the Brier terms, complement relation, repeated computation on one object and validity predicates for ensemble quantiles (complete and partly missing ensembles)",
             "The Brier family on vectors (exact Fraction arithmetic, BS = REL - RES + UNC with one value per bin), 20 probabilistic metrics through the csv code path on datasets with stored or ensemble-derived thresholds/quantiles under all bin types, "
             "BS(event)=BS(complement), and range/monotonicity/symmetry of ensemble-derived quantiles.",
             "Reliability/resolution terms are not judged for probabilities within float noise of an interior decimal bin edge; ensemble-quantile interpolation is judged by validity only; float32 tolerance for ensemble-derived probabilities.", "DESIGN.md section 5, C08"),
